@@ -361,3 +361,84 @@ class NdvHome:
                     if ident.endswith("_NDV"):
                         out.add(f"<{ident}>")
         return out
+
+
+# ---------------------------------------------------------------------------------------------------- dtype kinds of text arrays
+_BYTES_T = {"bytes", "bytes_", "string_"}
+_NOT_BYTES_T = {"str", "str_", "unicode_", "int", "float", "bool", "integer", "floating", "number", "inexact", "signedinteger", "unsignedinteger",
+                "complexfloating", "bool_", "ndarray", "float16", "float32", "float64", "int8", "int16", "int32", "int64", "uint8", "uint16", "uint32", "uint64"}
+_SUPER = {"s": {"bytes_", "string_", "character", "flexible", "generic", "bytes"}, "o": {"object_", "generic", "object"}}
+
+
+def _tname(e):
+    return e.attr if isinstance(e, ast.Attribute) else (e.id if isinstance(e, ast.Name) else (e.value if isinstance(e, ast.Constant) and isinstance(e.value, str) else None))
+
+
+def text_kind_truth(test, names: set, kind: str):
+    """Value (True / False / None = not decidable) of an elementary condition about an array X (called one of `names`) read from a dataset of
+    byte strings: kind "s" = fixed-length (NumPy dtype S<n>, elements np.bytes_), kind "o" = variable length (object array of bytes).
+    The array is taken to be non-empty.  Only dtype / element-type / emptiness tests are decided."""
+    def is_arr(e):
+        return isinstance(e, ast.Name) and e.id in names
+
+    def is_dtype(e):
+        return isinstance(e, ast.Attribute) and e.attr == "dtype" and is_arr(e.value)
+
+    def dtype_is(e):
+        """is the dtype of X equal to what `e` denotes?"""
+        if isinstance(e, ast.Call) and call_name(e) == "dtype" and len(e.args) == 1:
+            e = e.args[0]
+        nm = _tname(e)
+        if nm is None:
+            return None
+        if nm in ("object", "object_", "O"):
+            return kind == "o"
+        if nm in _NOT_BYTES_T or nm in ("U", "<U", "f", "d", "i", "f4", "f8", "i4", "i8", "<f4", "<f8", "<i4", "<i8", "u4", "<u4"):
+            return False
+        return None
+
+    t = test
+    if isinstance(t, ast.Call) and getattr(t.func, "id", None) == "isinstance" and len(t.args) == 2 and isinstance(t.args[0], ast.Subscript) and is_arr(t.args[0].value):
+        tn = [_tname(x) for x in (t.args[1].elts if isinstance(t.args[1], ast.Tuple) else [t.args[1]])]
+        if any(n in _BYTES_T for n in tn):
+            return True
+        return False if all(n in _NOT_BYTES_T for n in tn) else None
+    if isinstance(t, ast.Call) and call_name(t) == "issubdtype" and len(t.args) == 2 and is_dtype(t.args[0]):
+        n = _tname(t.args[1])
+        if n is None:
+            return None
+        if n in _SUPER[kind]:
+            return True
+        return False if (n in _NOT_BYTES_T or n in _SUPER["s"] or n in _SUPER["o"]) else None
+    if isinstance(t, ast.Compare) and len(t.ops) == 1:
+        op, a, b = t.ops[0], t.left, t.comparators[0]
+        if isinstance(op, (ast.Eq, ast.NotEq, ast.Is, ast.IsNot)) and (is_dtype(a) or is_dtype(b)):
+            v = dtype_is(b if is_dtype(a) else a)
+            return None if v is None else (v if isinstance(op, (ast.Eq, ast.Is)) else not v)
+        if isinstance(op, (ast.In, ast.NotIn)) and is_dtype(a) and isinstance(b, (ast.List, ast.Tuple, ast.Set)):
+            vals = [dtype_is(e) for e in b.elts]
+            v = True if any(x is True for x in vals) else (False if all(x is False for x in vals) else None)
+            return None if v is None else (v if isinstance(op, ast.In) else not v)
+        if isinstance(a, ast.Attribute) and a.attr == "kind" and is_dtype(a.value):
+            ch = kind.upper()
+            if isinstance(op, (ast.Eq, ast.NotEq)) and isinstance(b, ast.Constant) and isinstance(b.value, str):
+                return (b.value == ch) if isinstance(op, ast.Eq) else (b.value != ch)
+            if isinstance(op, (ast.In, ast.NotIn)):
+                members = list(b.value) if isinstance(b, ast.Constant) and isinstance(b.value, str) else \
+                    ([e.value for e in b.elts] if isinstance(b, (ast.List, ast.Tuple, ast.Set)) and all(isinstance(e, ast.Constant) for e in b.elts) else None)
+                if members is not None:
+                    return (ch in members) if isinstance(op, ast.In) else (ch not in members)
+        # emptiness / None
+        size = (isinstance(a, ast.Call) and getattr(a.func, "id", None) == "len" and len(a.args) == 1 and is_arr(a.args[0])) or \
+               (isinstance(a, ast.Attribute) and a.attr == "size" and is_arr(a.value))
+        if size and isinstance(b, ast.Constant) and b.value == 0:
+            if isinstance(op, (ast.Gt, ast.NotEq)):
+                return True
+            if isinstance(op, (ast.Eq, ast.LtE)):
+                return False
+        if is_arr(a) and isinstance(op, (ast.Is, ast.IsNot)) and isinstance(b, ast.Constant) and b.value is None:
+            return isinstance(op, ast.IsNot)
+    if (isinstance(t, ast.Call) and getattr(t.func, "id", None) == "len" and len(t.args) == 1 and is_arr(t.args[0])) or \
+            (isinstance(t, ast.Attribute) and t.attr == "size" and is_arr(t.value)):
+        return True
+    return None
